@@ -13,6 +13,13 @@ Local Open Scope string_scope. Local Open Scope N_scope.
 Definition SPEC_LEEWAY : N := 60.
 Definition SPEC_AUDIENCE : string := "snap".
 
+Fixpoint list_eqb_N (x y : list N) : bool :=
+  match x, y with
+  | [], [] => true
+  | a :: x', b :: y' => (a =? b) && list_eqb_N x' y'
+  | _, _ => false
+  end.
+
 Section Spec.
 Variable uuid_ok : string -> bool.
 Variable pssid1_ok : string -> bool.
@@ -171,6 +178,60 @@ Definition spec_acceptb (V : verifier) (now : N) (t : token) : bool :=
   match t_claims t with Some cl => negb (malformed_aud cl) | None => true end.
 
 End Spec.
+
+(** * The two text shapes behind the oracles [uuid_ok] / [pssid1_ok], written from the token
+      format ("pssid" of v0: a UUID in simple, hyphenated, braced or URN form; of v1:
+      base64url-no-pad of 0x00 followed by the 16 UUID bytes) and cross-checked against the
+      oracle answers on every correspondence case (Cases_C10). *)
+Definition chars (s : string) : list Ascii.ascii := list_ascii_of_string s.
+Definition code (c : Ascii.ascii) : N := Ascii.N_of_ascii c.
+Definition between (lo hi n : N) : bool := (lo <=? n) && (n <=? hi).
+Definition is_hex (c : Ascii.ascii) : bool :=
+  between 48 57 (code c) || between 97 102 (code c) || between 65 70 (code c).
+Definition hyphenated (l : list Ascii.ascii) : bool :=
+  Nat.eqb (List.length l) 36 &&
+  forallb (fun ic : nat * Ascii.ascii =>
+             if existsb (Nat.eqb (fst ic)) [8; 13; 18; 23]%nat then code (snd ic) =? 45 (* '-' *)
+             else is_hex (snd ic))
+          (combine (seq 0 36) l).
+Definition uuid_shape (s : string) : bool :=
+  let l := chars s in
+  let n := List.length l in
+  if Nat.eqb n 32 then forallb is_hex l
+  else if Nat.eqb n 36 then hyphenated l
+  else if Nat.eqb n 38 then
+    match l with
+    | c0 :: r => (code c0 =? 123) && (code (last r c0) =? 125) && hyphenated (removelast r)   (* { } *)
+    | [] => false
+    end
+  else if Nat.eqb n 45 then
+    list_eqb_N (map code (firstn 9 l)) [117; 114; 110; 58; 117; 117; 105; 100; 58]    (* urn:uuid: *)
+    && hyphenated (skipn 9 l)
+  else false.
+
+(** index in the base64url alphabet *)
+Definition b64url_idx (c : Ascii.ascii) : option N :=
+  let n := code c in
+  if between 65 90 n then Some (n - 65)
+  else if between 97 122 n then Some (n - 97 + 26)
+  else if between 48 57 n then Some (n - 48 + 52)
+  else if n =? 45 then Some 62
+  else if n =? 95 then Some 63
+  else None.
+(** 17 bytes = 136 bits = 22 full sextets + one sextet with 4 data bits and 2 zero bits; byte 0
+    is zero: the first sextet is 0 and the top two bits of the second are 0 *)
+Definition pssid1_shape (s : string) : bool :=
+  let l := chars s in
+  Nat.eqb (List.length l) 23 &&
+  forallb (fun c => match b64url_idx c with Some _ => true | None => false end) l &&
+  match l with
+  | c0 :: c1 :: _ =>
+    match b64url_idx c0, b64url_idx c1, b64url_idx (last l c0) with
+    | Some i0, Some i1, Some i22 => (i0 =? 0) && (i1 <? 16) && (i22 mod 4 =? 0)
+    | _, _, _ => false
+    end
+  | _ => false
+  end.
 
 (** tokens in the known-finding class C10-malformed-aud *)
 Definition in_malformed_aud_class (t : token) : Prop :=
